@@ -116,9 +116,28 @@ def numerical_state_sweep(ctx):
                 order = [rng.randrange(len(calls)) for _ in range(length)]
             hists.append(order)
         with ThreadPoolExecutor(max_workers=16) as ex:
-            outs = list(ex.map(lambda order: run_impl(cfg, [{"op": calls[i][0], "args": calls[i][1]} for i in order]), hists))
+            outs = list(ex.map(lambda order: run_impl(cfg, [{"op": calls[i][0], "args": calls[i][1], "retain": True} for i in order]
+                                                      + [{"op": "probe.reread", "args": []}]), hists))
         for order, res in zip(hists, outs):
             stats["histories"] += 1
+            # arrays previously returned: every object handed back during the history, encoded again at its end
+            again = res[-1].get("ok")
+            res = res[:-1]
+            first = [r["ok"] for r in res if "ok" in r]
+            stats["rereads"] = stats.get("rereads", 0) + len(first)
+            if again is None or len(again) != len(first):
+                ctx.violations.append({"kind": "reread-failed", "config": cfg, "op": "probe.reread", "case": {}, "implementation_returned": res[-1] if res else None,
+                                       "verdict": "could not read the retained results again", "no_input": True})
+            else:
+                okpos = [k for k, r in enumerate(res) if "ok" in r]
+                for k, a, b in zip(okpos, first, again):
+                    if key(a) != key(b):
+                        stats["differences"] += 1
+                        ctx.violations.append({"kind": "returned-array-modified-later", "config": cfg, "op": calls[order[k]][0],
+                                               "case": {"call": calls[order[k]][1], "later_calls": [[calls[j][0], calls[j][1]] for j in order[k + 1:]]},
+                                               "implementation_returned": {"at_return": a, "after_later_calls": b},
+                                               "verdict": "the object returned by this call holds other values after %d later calls" % (len(order) - 1 - k)})
+                        break
             for pos, (i, r) in enumerate(zip(order, res)):
                 stats["calls_compared"] += 1
                 if key(r) != key(pristine[i]):
@@ -392,7 +411,7 @@ def run(ctx):
                 i = rng.randrange(len(inp))
                 allow = rng.random() < 0.8
                 ops.append(("I", i, allow))
-                jobs.append({"op": "speedup.curve_intersections", "args": [enc_arr(inp[i][0]), enc_arr(inp[i][1]), allow]})
+                jobs.append({"op": "speedup.curve_intersections", "args": [enc_arr(inp[i][0]), enc_arr(inp[i][1]), allow], "retain": True})
             elif u < 0.75:
                 n = rng.randint(1, 12)
                 ops.append(("R", n)); jobs.append({"op": "speedup.reset_curves_workspace", "args": [n]})
@@ -400,10 +419,26 @@ def run(ctx):
                 ops.append(("F",)); jobs.append({"op": "speedup.free_curve_intersections_workspace", "args": []})
             else:
                 ops.append(("Q",)); jobs.append({"op": "speedup.curves_workspace_size", "args": []})
-        res = run_impl("speedup", jobs)      # ONE process: the history shares the compiled workspaces
-        obs = []
+        res = run_impl("speedup", jobs + [{"op": "probe.reread", "args": []}])      # ONE process: the history shares the compiled workspaces
+        again = list(res[-1].get("ok") or [])       # the objects returned during the history, read again at its end
+        res = res[:-1]
+        obs, obs_late = [], []
         ok = True
         for o, r in zip(ops, res):
+            if o[0] == "I" and "ok" in r and again:
+                late = again.pop(0)
+                arr2, _ = dec_res(late)
+                pairs2 = list(zip(arr2[0], arr2[1])) if arr2 and arr2[0] else []
+                obs_late.append("(Result pairT [%s])" % "; ".join("(%s, %s)" % (coq_q(a), coq_q(b)) for a, b in pairs2))
+                stats["reread_at_end"] = stats.get("reread_at_end", 0) + 1
+                if json.dumps(late) != json.dumps(r["ok"]):
+                    k = ops.index(o)
+                    ctx.violations.append({"kind": "returned-array-modified-later", "op": "speedup.curve_intersections", "config": "speedup",
+                                           "case": {"input": o[1], "nodes": inp[o[1]], "later_operations": [list(map(str, x)) for x in ops[k + 1:]][:40]},
+                                           "implementation_returned": {"at_return": r["ok"], "at_end_of_history": late},
+                                           "verdict": "the array returned by this call holds other values after later calls"})
+            else:
+                obs_late.append(None)
             if o[0] == "I":
                 if "exc" in r:
                     ts = parse_too_small(r.get("msg", "")) if r["exc"] == "ValueError" else None
@@ -442,6 +477,12 @@ def run(ctx):
                 op_t.append("(QuerySize nat)")
         texts.append(HEADER + "\nDefinition cases := [(%s, [%s], [%s])].\nEval vm_compute in (bad_indices chk_history cases).\n" % (
             tb, "; ".join(op_t), "; ".join(obs)))
+        metas.append(ops)
+        # the same history with every result as it reads at the END of the history: results are values in the state machine, so
+        # the arrays handed back must still hold them after all later operations
+        obs2 = [l if l is not None else o_ for o_, l in zip(obs, obs_late)]
+        texts.append(HEADER + "\nDefinition cases := [(%s, [%s], [%s])].\nEval vm_compute in (bad_indices chk_history cases).\n" % (
+            tb, "; ".join(op_t), "; ".join(obs2)))
         metas.append(ops)
     outs = run_cases_sharded("C14_history", texts)
     for (rc, out, err, dt), ops in zip(outs, metas):
